@@ -136,6 +136,13 @@ def bounded(tier, seed):
                 f.createVariable('m%d' % fi, dt, ('t', 'x'), values=mv, units='u')
             else:
                 f.createVariable('m%d' % fi, dt, ('t', 'x'), values=mv, fill_value=fv, units='u')
+        # plain variables defined AFTER the masked ones, holding the very numbers used as fill values above: nothing about
+        # an earlier variable may leak into them (no _FillValue attribute, no masked cell)
+        # (not the netCDF DEFAULT fill numbers ~9.97e36: netCDF4 masks those in any variable by convention)
+        nums = [fv for fv in fills if fv is not None and abs(fv) < 1e30] + [-999.0, 7.5]
+        for dt in ('f4', 'f8', 'i4'):
+            vals = np.resize(np.array([x for x in nums if dt != 'i4' or (float(x).is_integer() and abs(x) < 2 ** 31)], dt), (3, 4))
+            f.createVariable('after_' + dt, dt, ('t', 'x'), values=vals, units='u')
         f.createVariable('s', 'd', (), values=np.array(3.25))
         f.createVariable('name', 'c', ('y', 'c'), values=np.array([list('hello'), list('world')], dtype='S1'))
         f.title = 'a title'
@@ -174,6 +181,9 @@ def bounded(tier, seed):
                 ma = np.ma.getmaskarray(a)
                 if da.dtype.kind == 'f' and not np.array_equal(np.signbit(da[~ma]), np.signbit(db[~ma])):
                     return 'variable %s: sign bit of an unmasked value changed' % vk
+            fills_src = [k for k in ('fill_value', '_FillValue', 'missing_value') if k in v.ncattrs()]
+            if not fills_src and not np.ma.isMaskedArray(a) and '_FillValue' in w.ncattrs():
+                return 'variable %s has no fill value in the source but _FillValue=%r in the file' % (vk, getattr(w, '_FillValue'))
             fa = [k for k in v.ncattrs() if k not in ('fill_value', '_FillValue', 'missing_value')]
             fb = [k for k in w.ncattrs() if k not in ('fill_value', '_FillValue', 'missing_value')]
             if fa != fb:
